@@ -27,8 +27,10 @@ type fixture struct {
 	trustPath string // PEM with the root (trust_store of the jwt authenticator)
 	signKey   crypto.Signer
 	ksPath    string // key store of the jwt finalizer
-	jwt       string // token signed with signKey, kid k1, valid for years
-	jwks      map[string]string
+	// ksCertPath: the same with a certificate that expires certExpiry seconds after T0
+	ksCertPath string
+	jwt        string // token signed with signKey, kid k1, valid for years
+	jwks       map[string]string
 }
 
 var fx *fixture
@@ -38,6 +40,9 @@ func must(err error) {
 		panic(err)
 	}
 }
+
+// certExpiry: seconds after T0 at which the certificate of the finalizer's second key store expires
+const certExpiry = 20
 
 func getFixture() *fixture {
 	if fx != nil {
@@ -74,6 +79,10 @@ func getFixture() *fixture {
 
 	f.ksPath = filepath.Join(dir, "signer.pem")
 	must(os.WriteFile(f.ksPath, hx.PEMEntry(hx.KeySpec{Kind: "EC", Size: 256, KID: "fin"}, hx.Key("EC", 256, 102)), 0o600))
+
+	f.ksCertPath = filepath.Join(dir, "signer-with-certificate.pem")
+	must(os.WriteFile(f.ksCertPath, hx.PEMEntry(hx.KeySpec{Kind: "EC", Size: 256, KID: "fin", WithCert: true, CN: "c10 signer",
+		NotBefore: env.T0.Add(-time.Hour), NotAfter: env.T0.Add(certExpiry * time.Second)}, hx.Key("EC", 256, 103)), 0o600))
 
 	signer, err := jose.NewSigner(jose.SigningKey{Algorithm: jose.ES256, Key: jose.JSONWebKey{Key: f.signKey, KeyID: "k1"}},
 		(&jose.SignerOptions{}).WithType("JWT"))
